@@ -810,7 +810,7 @@ B('c09-stop-all-order', 'C09', 'R09.d', WEBAPP,
   """        result1 = self._jobs.stop_current()
         self._jobs.clear_queue()""")
 B('c09-stop-script-noop', 'C09', 'R09.d', WEBAPP,
-  "        return self._jobs.stop_job(path)", "        return self._jobs.is_running(path)")
+  "        return self._jobs.stop_job(script_control.path)", "        return self._jobs.is_running(script_control.path)")
 B('c09-clock-stop-in-try', 'C09', 'R09.e', MACHINE,
   """        finally:
             self._clock.stop()
@@ -1079,12 +1079,10 @@ B('c15-zone-none-after', 'C15', 'R15.a', MACHINE,
                 end_index = start_index
 """, "")
 B('c15-overlay-exclusive', 'C15', 'R15.a', MATRIX,
-  """        self._normalize_rect(rect)
-        for row in range(rect.top, rect.bottom + 1):
+  """        for row in range(rect.top, rect.bottom + 1):
             for column in range(rect.left, rect.right + 1):
                 self._mat[row][column] = color""",
-  """        self._normalize_rect(rect)
-        for row in range(rect.top, rect.bottom):
+  """        for row in range(rect.top, rect.bottom):
             for column in range(rect.left, rect.right + 1):
                 self._mat[row][column] = color""")
 B('c15-overlay-no-normalize', 'C15', 'R15.a', MATRIX,
@@ -1296,8 +1294,7 @@ N('c19-named-test-rewritten', 'C19', VMIO,
 
 # ------------------------------------------------------------------ C20
 B('c20-job-outside-queue-script', 'C20', 'R20.a', WEBAPP,
-  "    def stop_script(self, path) -> bool:\n        return self._jobs.stop_job(path)",
-  "    def stop_script(self, path) -> bool:\n        self._jobs.add_job(ScriptJob.from_file(path), path)\n        return self._jobs.stop_job(path)")
+  "    def stop_script(self, path) -> bool:\n", "    def stop_script(self, path) -> bool:\n        self._jobs.add_job(ScriptJob.from_file(path), path)\n")
 B('c20-route-runs-file', 'C20', 'R20.a', FRONT,
   """        script_control = web_app.get_script_control(path)
         if script_control is not None:
@@ -1493,3 +1490,24 @@ B('c01-clock-rebased-at-start-of-wait', 'C01', 'R01.f', CLOCK,
   CLOCK, "            hour, minute = Clock._hour_minute()\n        self.reset()", "            hour, minute = Clock._hour_minute()")
 B('c01-clock-not-rebased', 'C01', 'R01.f', CLOCK,
   "            hour, minute = Clock._hour_minute()\n        self.reset()", "            hour, minute = Clock._hour_minute()")
+B('c15-overlay-not-clipped', 'C15', 'R15.g', MATRIX,
+  "        # Set the cells within rect to color.\n        self._normalize_rect(rect)\n        self._clip_rect(rect)",
+  "        # Set the cells within rect to color.\n        self._normalize_rect(rect)")
+B('c15-clip-before-normalize', 'C15', 'R15.g', MATRIX,
+  "        # Set the cells within rect to color.\n        self._normalize_rect(rect)\n        self._clip_rect(rect)",
+  "        # Set the cells within rect to color.\n        self._clip_rect(rect)\n        self._normalize_rect(rect)")
+B('c15-clip-bottom-to-height', 'C15', 'R15.g', MATRIX,
+  "        rect.bottom = min(rect.bottom, self.height - 1)", "        rect.bottom = min(rect.bottom, self.height)")
+B('c06-params-declared-before-scope', 'C06', 'R06.i', PARSE,
+  "        self._context.enter_routine()\n        self._add_instruction(OpCode.ROUTINE, name)", "        self._add_instruction(OpCode.ROUTINE, name)",
+  PARSE, "        result = self.command_seq()\n        self._add_instruction(OpCode.END, name)", "        self._context.enter_routine()\n        result = self.command_seq()\n        self._add_instruction(OpCode.END, name)")
+B('c04-index-var-before-to-bound', 'C04', 'R04.h', LOOP,
+  "        if not self.current_token.is_a(TokenTypes.TO):\n            return self.token_error('Needed \"to\", got \"{}\"')",
+  "        code_gen.add_instruction(OpCode.MOVE, LoopVar.FIRST, self._index_var)\n        if not self.current_token.is_a(TokenTypes.TO):\n            return self.token_error('Needed \"to\", got \"{}\"')",
+  LOOP, "            return False\n        code_gen.add_instruction(OpCode.MOVE, LoopVar.FIRST, self._index_var)\n        if self._loop_type is _LoopType.WITH:", "            return False\n        if self._loop_type is _LoopType.WITH:")
+B('c12-get-color-fail-none', 'C12', 'R12.c', LANLIGHT,
+  "    @tries(_MAX_TRIES, WorkflowException, [-1] * 4)\n    def get_color(self):", "    @tries(_MAX_TRIES, WorkflowException)\n    def get_color(self):")
+B('c19-format-from-token-text', 'C19', 'R19.f', IOPARSER,
+  "        format_str = self.current_str", "        format_str = str(self.current_token)")
+N('c19-format-through-parser-call', 'C19', IOPARSER,
+  "        format_str = self.current_str", "        format_str = self.parser._current_str()")
